@@ -589,7 +589,11 @@ def rules(tier):
             # C14-db: pre-terminals right of an exhausted position are lost on resume
             ('C02.R20', _shared_rule('c08', 'r24_restore_visits_every_position')),
             # mutation sweep: the last queued pre-terminal is lost when next() tests len == 1
-            ('C02.R21', _shared_rule('plumbing', 'generator_glue'))] + _loader_bundle() + []
+            ('C02.R21', _shared_rule('plumbing', 'generator_glue')),
+            # C02-ea: the re-cased tail built on a list shared across masks
+            ('C02.R22', _shared_rule('c04', 'r3_mask_slices')),
+            # C02-eb: print_guess returns without printing once a quit is requested
+            ('C02.R23', _shared_rule('c04', 'r12_output_point_total'))] + _loader_bundle() + []
 
 
 META = {
